@@ -1209,6 +1209,34 @@ def run_program(env, cfg, prog, record=True, plain=False, fault=None, emulate_ac
             fl = 'error: %s' % type(e).__name__
         fault_info['statements'] = fstate['statements']
         fault_info['fired'] = fstate['fired']
+        act_problem = None
+        if rec and env.versioned and cfg.get('activity') and getattr(env.manager, 'activity_cls', None) is not None:
+            # the generic relationships object_version / target_version of every activity have to resolve to the version
+            # the pointer columns name (class, key, transaction id), and to nothing when the pointer is NULL
+            s3 = env.session()
+            try:
+                Act = env.manager.activity_cls
+                names = {c.__name__: c for c in classes if hasattr(c, '__versioned__')}
+                for a in s3.query(Act).order_by(Act.id).all():
+                    for side in ('object', 'target'):
+                        tname, oid, otx = getattr(a, side + '_type'), getattr(a, side + '_id'), getattr(a, side + '_tx_id')
+                        if tname is None:
+                            continue      # no object / target at all (reading <side>_version then raises TypeError
+                                          # in the package: None + 'Version' - outside the property, not judged)
+                        v = getattr(a, side + '_version')
+                        if otx is None or tname not in names:
+                            if v is not None and otx is None:
+                                act_problem = 'activity %s: %s_version resolves although %s_tx_id is NULL' % (a.id, side, side)
+                            continue
+                        V = env.version_class(names[tname])
+                        txc = env.manager.option(names[tname], 'transaction_column_name')
+                        if v is None or type(v) is not V or v.id != oid or getattr(v, txc) != otx:
+                            act_problem = 'activity %s: %s_version is %r, the pointer says %s %s at transaction %s' % (
+                                a.id, side, v, tname, oid, otx)
+            except Exception as e:
+                act_problem = 'reading object_version / target_version: %s: %s' % (type(e).__name__, str(e)[:200])
+            finally:
+                s3.close()
         ce = None
         if rec and env.versioned and cfg.get('read_changed_entities'):
             # the real Transaction.changed_entities of every record, through a fresh session on the same connection
@@ -1229,7 +1257,7 @@ def run_program(env, cfg, prog, record=True, plain=False, fault=None, emulate_ac
             finally:
                 s2.close()
         return dict(trace=rec.trace if rec else [], snaps=rec.snaps if rec else [], outcomes=outcomes, changed_entities=ce,
-                    ccfg=reflect_cfg(env, cfg) if not plain else [], exc=None, final_live=fl, fault=fault_info)
+                    ccfg=reflect_cfg(env, cfg) if not plain else [], exc=act_problem, final_live=fl, fault=fault_info)
     except Exception as e:               # harness-level failure
         import traceback
         return dict(trace=[], snaps=[], outcomes=outcomes, ccfg=[], final_live=None, exc='%s: %s\n%s' % (
